@@ -6,6 +6,9 @@ import json, os, subprocess, sys, tempfile, shutil, xml.etree.ElementTree as ET
 seed = os.path.abspath(sys.argv[1])
 no_suite = "--no-suite" in sys.argv
 PIN = "c5117bd"
+for a in sys.argv:
+    if a.startswith("--base="):
+        PIN = a.split("=", 1)[1]
 out = {"seed": seed}
 
 
